@@ -329,6 +329,9 @@ def check(ctx):
     ctx.rule("R6.4", "a task for an arm absent from the chunk is a no-op or an idempotent re-derivation")
     ctx.rule("R6.5", "LSH index offset read before the append, passed and applied; planes untouched by partial_fit")
     ctx.rule("R6.6", "first partial_fit delegates to fit")
+    ctx.rule("R6.7", "what a chunk appends to the history is converted with the chunk's own decisions")
+    from .c20 import check_binarizer_pairing
+    check_binarizer_pairing(ctx, F, "R6.7")
     check_siblings(ctx)
     check_history_append(ctx)
     check_lsh_offset(ctx)
